@@ -623,14 +623,24 @@ def E2_cif_tags(repo, clause):
     r = repo.fn("Atoms.load_p1_cif")
     wt = _cif_tags(w)
     rt = {t.lower() for t, _ in _cif_tags(r)}
+    # tag templates the reader formats at run time ("_geom_bond_atom_site_label_%d" handed to a helper): a written tag that such a template
+    # can produce is not decided as missing
+    templates = []
+    for x in r.all_nodes():
+        if isinstance(x, ast.Constant) and isinstance(x.value, str) and x.value.startswith("_") and ("%" in x.value or "{" in x.value):
+            templates.append(re.compile("^" + re.sub(r"%[0-9]*[ds]|\\\{[^}]*\\\}", ".+", re.escape(x.value.lower())) + "$"))
+        elif isinstance(x, ast.JoinedStr) and x.values and isinstance(x.values[0], ast.Constant) and str(x.values[0].value).startswith("_"):
+            templates.append(re.compile("^" + "".join(re.escape(str(v.value).lower()) if isinstance(v, ast.Constant) else ".+" for v in x.values) + "$"))
     n = 0
     for t, node in wt:
         if not t.startswith(CIF_CATEGORIES):
             continue
         n += 1
         ok = t.lower() in rt
-        obs.append(Ob("E2", clause, w, node, ok, "tag %s written by save_p1_cif is %s by load_p1_cif" % (t, "consumed" if ok else "NOT consumed"),
-                      construct=t, slot="tag:%s" % t.lower(), positive=True))
+        maybe = not ok and any(p_.match(t.lower()) for p_ in templates)
+        obs.append(Ob("E2", clause, w, node, ok, "tag %s written by save_p1_cif is %s by load_p1_cif" % (
+            t, "consumed" if ok else ("possibly produced by a tag template of the reader that this rule does not fold" if maybe else "NOT consumed")),
+            construct=t, slot="tag:%s" % t.lower(), positive=not maybe, undecided=maybe, depends=(r,)))
     floor("E2", "CIF tags written", n, 20)
     # PyCifRW returns loop keys lower-cased: tags that are subtracted from GetLoop(...).keys() must be lower-case
     handled_lists = []
